@@ -83,8 +83,9 @@ PROPS["C19"] = dict(
 
 PROPS["C12"] = dict(
     stages=[dict(name="race", module="sched", go=GO, race=True, test="TestRace", shards=16,
-                 checks={"quick": 1500, "thorough": 60000}, env={"GORACE": "halt_on_error=1"})],
-    rule="cases as C01 (emphasis: early returns through failure/cancellation, concurrent Enqueue from several goroutines, state emitter) executed by a harness binary built with -race -tags verif in which job bodies share NO harness synchronisation: each job reads plain variables written by its dependencies and writes its own; the caller reads them after Wait returned nil; oracle = Go race detector (halt_on_error) + value visibility; non-trivial = >=2 jobs (a cross-job hand-off or concurrent Enqueue exists); distinct = hash(case)",
+                 checks={"quick": 1500, "thorough": 60000}, env={"GORACE": "halt_on_error=1"}),
+            ebin(1, 20)],
+    rule="E-BIN stage: generated flows/parallels compiled with -race and executed under fault/cancel scenarios by user functions that record nothing and take no lock (the only shared data are the generated vN variables, Results targets and scheduler state); scheduler stage: cases as C01 (emphasis: early returns through failure/cancellation, concurrent Enqueue from several goroutines, state emitter) executed by a harness binary built with -race -tags verif in which job bodies share NO harness synchronisation: each job reads plain variables written by its dependencies and writes its own; the caller reads them after Wait returned nil; oracle = Go race detector (halt_on_error) + value visibility; non-trivial = >=2 jobs (a cross-job hand-off or concurrent Enqueue exists); distinct = hash(case)",
     assumptions=SCHED_ASSUME + ["the race detector judges only executed code paths, generalised over the happens-before relation of each observed execution"],
 )
 
@@ -148,7 +149,7 @@ PROPS["C13"] = dict(
     assumptions=GEN_ASSUME,
 )
 PROPS["C14"] = dict(
-    stages=[egen(4, 120)],
+    stages=[egen(4, 120), dict(name="lattice", module="gen", go=GO, test="TestLattice", shards=1, gen=True, checks={"quick": 1, "thorough": 1})],
     rule="cases = packages of 6-15 files with one flow each; about 2/3 of the flows receive a single-defect mutation (drop a Params value, drop a providing task, second provider task, provider duplicated in Params, task returning a type twice, back edge through a task input or a predicate input at any distance, unused Params value, unconsumed output, stripped Invoke(true)), 1/6 of those a second one; oracle = independent reference well-formedness checker on the abstract spec: ill-formed => cff exits non-zero, a diagnostic names the file, no output file for that file while the other files are still generated; well-formed (incl. mutations that stay well-formed) => accepted and compiling; plus a deterministic Slice/Map element-vs-parameter lattice stage; non-trivial = mutated flow with >=3 tasks; distinct = hash(spec)",
     assumptions=GEN_ASSUME + ["cff.Invoke(true) on a task that has outputs (docs allow, code rejects) is never generated"],
 )
@@ -176,7 +177,7 @@ ENGINES = [
      "kind_free_text": "rapid, real goroutines and clock on 16 cores; -race flavour for C12; stateful histories for C06"},
 ]
 ENGINES += [
-    {"name": "E-BIN", "path": "gen/ebin_test.go", "serves_properties": ["C01", "C02", "C03", "C04", "C07", "C08", "C09", "C10", "C11", "C15", "C18"],
+    {"name": "E-BIN", "path": "gen/ebin_test.go", "serves_properties": ["C01", "C02", "C03", "C04", "C07", "C08", "C09", "C10", "C11", "C12", "C13", "C15", "C18"],
      "kind_free_text": "rapid outer loop: spec -> Go module (go 1.19) -> freshly built cff binary -> go test -c -> inner driver (rapid scenario search, reference interpreters in gen/rt)"},
 ]
 ENGINES += [
